@@ -4,7 +4,7 @@ Level: exploration (TLC-enumerated mutations + grammar sweep + byte mutations ex
 parser in watched worker subprocesses), with a model-checked sub-claim for the lexer / list builder
 (spec/Lexer.tla: machine over all inputs up to N bytes, pure function on all strings up to L symbols,
 exact conformance with the real sexpr::parse on all strings up to 5 symbols)."""
-import json, os, random, time, hashlib, subprocess, threading
+import json, os, re, random, time, hashlib, subprocess, threading
 from collections import Counter, defaultdict
 import kv, flow
 import parsefuzz as pf
@@ -309,6 +309,86 @@ def refs_sweep(tier, rng, wd, cases, stats):
     stats["refs"] = {"names": n, "graphs_x_uses": m, "states": r["distinct"], "texts": k, "wall_s": round(r["wall_s"], 1)}
 
 
+def templates_sweep(tier, rng, wd, cases, stats):
+    """Template reference graphs enumerated by TLC (spec/CfgTemplates.tla): bodies that expand ti through
+    template-expand and through t!, self / mutual / forward references, nested, used or unused."""
+    lit = ["const", "long", "short", "nlong", "nshort"]
+    runs = [("lit", 2, lit), ("all", 1, lit + ["subst"])] if tier == "quick" else [("lit", 3, lit), ("all", 2, lit + ["subst"])]
+    st = {"runs": [], "texts": 0}
+    for name, n, kinds in runs:
+        d = workdir("c03/tpl_" + name)
+        with open(os.path.join(d, "CfgTemplates.cfg"), "w") as f:
+            f.write("INIT Init\nNEXT Next\nCONSTANT N = %d\nCONSTANT Kinds = %s\nINVARIANT Emit\nCHECK_DEADLOCK FALSE\n" %
+                    (n, kv.tla_val(set(kinds))))
+        r = kv.run_tlc(d, "CfgTemplates", workers=4, timeout=900, heap="4g")
+        tlc_ok(r, "CfgTemplates(%s)" % name)
+        gf = os.path.join(d, "tpl.ndjson")
+        m = kv.extract_prints(r["out"], "TPL", gf)
+        os.remove(r["out"])
+        k = 0
+        for line in open(gf):
+            g = json.loads(line)
+            if cases.add("templates:" + name, "g%d" % len(g["g"]), pf.template_text(g["g"], g["use"], g["pos"]), {}):
+                k += 1
+        os.remove(gf)
+        st["runs"].append({"run": name, "names": n, "body_kinds": kinds, "graphs_x_uses": m, "states": r["distinct"],
+                           "texts": k, "wall_s": round(r["wall_s"], 1)})
+        st["texts"] += k
+    stats["templates"] = st
+
+
+HEAVY_MS = 60000      # watchdog of the very large boundary texts (60000 layers take several seconds in a dev build)
+
+
+def caps_sweep(tier, rng, wd, cases, stats):
+    """Capacity boundaries enumerated by TLC (spec/CfgCaps.tla): for every capacity the quantities
+    {L-1, L, L+1, L+2} in every shape that reaches them.  Returns the cases by item id (for the evidence)."""
+    d = workdir("c03/caps")
+    with open(os.path.join(d, "CfgCaps.cfg"), "w") as f:
+        f.write("INIT Init\nNEXT Next\nCONSTANT Heavy = %s\nINVARIANT Emit\nCHECK_DEADLOCK FALSE\n" % ("FALSE" if tier == "quick" else "TRUE"))
+    r = kv.run_tlc(d, "CfgCaps", workers=4, timeout=900, heap="4g")
+    tlc_ok(r, "CfgCaps")
+    gf = os.path.join(d, "caps.ndjson")
+    m = kv.extract_prints(r["out"], "CAP", gf)
+    if m != r["distinct"]:
+        raise ToolError("CfgCaps: %d CAP lines for %s states" % (m, r["distinct"]))
+    os.remove(r["out"])
+    codes = pf.local_codes(d)
+    if len(codes) < 200:
+        raise ToolError("the loader accepts only %d key codes in deflocalkeys" % len(codes))
+    byid = {}
+    for line in open(gf):
+        c = json.loads(line)
+        it = cases.add("caps:" + c["c"], "%s=%d" % (c["a"] or c["c"], c["t"]), pf.cap_text(c, codes), {})
+        if it:
+            if c["c"] in ("layers", "chord-groups") or len(it["text"]) > 100000:
+                it["heavy"] = True
+            byid[it["id"]] = c
+    os.remove(gf)
+    stats["capacities"] = {"cases": m, "texts": len(byid), "heavy_texts": sum(1 for i in byid if cases.items[i].get("heavy")),
+                           "key_codes_named_by_the_loader": len(codes), "states": r["distinct"], "wall_s": round(r["wall_s"], 1),
+                           "by_capacity": dict(Counter(c["c"] for c in byid.values()))}
+    return byid
+
+
+def caps_report(byid, results, stats):
+    """Per capacity and shape: where along t the outcome changes (shows that the boundary was really reached)."""
+    by = defaultdict(list)
+    for i, c in byid.items():
+        o = results[i]["outcome"]
+        by[(c["c"], c["a"], c["b"], "/".join(c["ops"]))].append((c["t"], o if o != "err" else "diagnostic"))
+    flips = Counter()
+    rows = []
+    for k in sorted(by):
+        seq = sorted(by[k])
+        ch = ["%d:%s" % (t, o) for j, (t, o) in enumerate(seq) if j == 0 or seq[j - 1][1] != o]
+        flips[k[0]] += 1 if len(ch) > 1 else 0
+        if len(rows) < 40 and (k[0] != "switch-opcodes" or len(rows) < 6):
+            rows.append({"capacity": k[0], "shape": " ".join(x for x in k[1:] if x), "outcome_along_t": ch})
+    stats["capacities"]["shapes_with_an_outcome_change_inside_the_window"] = dict(flips)
+    stats["capacities"]["outcome_along_t_samples"] = rows
+
+
 def byte_level(tier, rng, cases, texts, stats):
     per = 12 if tier == "quick" else 150
     n = 0
@@ -345,7 +425,7 @@ def as_includes(tier, rng, cases, stats):
     n = 0
     for i in idx[:k]:
         it = cases.items[i]
-        if it.get("path") or "kvinc.kbd" in it["files"]:
+        if it.get("path") or "kvinc.kbd" in it["files"] or it.get("heavy"):
             continue
         f2 = dict(it["files"]) if len(it["files"]) <= 3 else {}
         f2["kvinc.kbd"] = it["text"]
@@ -360,7 +440,7 @@ def on_disk(tier, rng, cases, wd, stats):
     root = os.path.join(wd, "disk")
     shutil.rmtree(root, ignore_errors=True)
     k = 300 if tier == "quick" else 5000
-    idx = [i for i in range(len(cases.items)) if not cases.items[i].get("path")]
+    idx = [i for i in range(len(cases.items)) if not cases.items[i].get("path") and not cases.items[i].get("heavy")]
     rng.shuffle(idx)
     # prefer texts that have includable files
     idx.sort(key=lambda i: 0 if cases.items[i]["files"] else 1)
@@ -445,7 +525,10 @@ def run(tier, seed):
     grammar_sweep(tier, rng, wd, cases, stats)
     log("[c03] + grammar sweep: %d texts (%.0fs)" % (len(cases.items), time.time() - t0))
     refs_sweep(tier, rng, wd, cases, stats)
+    templates_sweep(tier, rng, wd, cases, stats)
     log("[c03] + name-resolution graphs: %d texts (%.0fs)" % (len(cases.items), time.time() - t0))
+    capcases = caps_sweep(tier, rng, wd, cases, stats)
+    log("[c03] + capacity boundaries: %d texts (%.0fs)" % (len(cases.items), time.time() - t0))
     byte_level(tier, rng, cases, texts, stats)
     as_includes(tier, rng, cases, stats)
     on_disk(tier, rng, cases, wd, stats)
@@ -462,19 +545,36 @@ def run(tier, seed):
     for dfr in lex["diffs"][:500]:
         cases.add("lexer:drift", "Lexer.tla", bytes(dfr["b"]).decode("utf-8"), {})
 
-    results = pf.run_probe(cases.items, wd, "probe", to_ms=to_ms)
-    # a watchdog expiry on a loaded machine is confirmed alone with three times the budget before it counts
-    slow = [it for it in cases.items if results[it["id"]]["outcome"] == "timeout"]
+    heavy = [it for it in cases.items if it.get("heavy")]
+    results = pf.run_probe([it for it in cases.items if not it.get("heavy")], wd, "probe", to_ms=to_ms)
+    if heavy:
+        # very large boundary texts: own watchdog, few at a time (a text with 60000 layers needs 1.5 GB)
+        results.update(pf.run_probe(heavy, wd, "heavy", to_ms=HEAVY_MS, shards=3, per_shard=1))
+    # a watchdog expiry on a loaded machine is confirmed alone with three times the budget before it counts:
+    # per signature the smallest texts first; when all of those are confirmed the rest of the signature stands as
+    # recorded, when one of them terminates after all every text of the signature is run again
+    slow = defaultdict(list)
+    for it in cases.items:
+        if results[it["id"]]["outcome"] == "timeout" and not it.get("heavy"):
+            slow[pf.judge(it, results[it["id"]])["signature"]].append(it)
     stats["timeouts_confirmed"] = 0
+    stats["timeouts_of_a_confirmed_signature_not_rerun"] = 0
     stats["slow_but_terminating"] = 0
-    if slow:
-        again = pf.run_probe(slow[:200], wd, "confirm", to_ms=3 * to_ms, shards=8, per_shard=1)
-        for it in slow[:200]:
-            if again[it["id"]]["outcome"] != "timeout":
-                results[it["id"]] = again[it["id"]]
-                stats["slow_but_terminating"] += 1
-            else:
-                stats["timeouts_confirmed"] += 1
+    for sig in sorted(slow):
+        its = sorted(slow[sig], key=lambda it: (len(it["text"]), it["id"]))
+        todo, rest = its[:6], its[6:200]
+        while todo:
+            again = pf.run_probe(todo, wd, "confirm", to_ms=3 * to_ms, shards=8, per_shard=1)
+            ended = 0
+            for it in todo:
+                if again[it["id"]]["outcome"] != "timeout":
+                    results[it["id"]] = again[it["id"]]
+                    stats["slow_but_terminating"] += 1
+                    ended += 1
+                else:
+                    stats["timeouts_confirmed"] += 1
+            todo, rest = (rest, []) if ended else ([], rest)
+        stats["timeouts_of_a_confirmed_signature_not_rerun"] += len(rest) + max(0, len(its) - 200)
     log("[c03] probed %d texts (%.0fs)" % (len(results), time.time() - t0))
 
     # verdicts: Python (for signatures) and TLC (the relation of the spec) must agree
@@ -483,31 +583,43 @@ def run(tier, seed):
         j = pf.judge(it, results[it["id"]])
         if j:
             bad[it["id"]] = j
+    caps_report(capcases, results, stats)
     rejected, ntuples = tlc_judge(wd, cases.items, results)
     if rejected != set(bad):
         diff = list(rejected ^ set(bad))[:5]
         raise ToolError("CfgOutcome!Allowed (TLC) and the tools disagree on cases %r" % diff)
 
+    # clusters: by signature, and by whether the text lies inside the input class of a known finding with that
+    # signature (exact signature - file:line / input class, not a prefix - and every `requires` regex of the
+    # finding matches the text with its files); the same site reached by another class of input is a new violation
+    known = [f for f in kv.known_findings().get("findings", []) if f.get("property") == PID and f.get("signature")]
+
+    def known_for(i, sig):
+        it = cases.items[i]
+        whole = it["text"] + ("".join("\n" + v for v in it["files"].values()) if len(it["files"]) <= 3 else "")
+        for f in known:
+            if f["signature"] == sig and all(re.search(rx, whole) for rx in f.get("requires", [])):
+                return f
+        return None
     clusters = defaultdict(list)
     for i, j in bad.items():
-        clusters[j["signature"]].append(i)
-    known = kv.known_findings().get("findings", [])
+        clusters[(j["signature"], known_for(i, j["signature"]) is not None)].append(i)
     cl_out = []
-    for sig in sorted(clusters):
-        ids = sorted(clusters[sig], key=lambda i: (len(cases.items[i]["text"]) + sum(len(v) for v in cases.items[i]["files"].values()), i))
+    for sig, is_known in sorted(clusters):
+        ids = sorted(clusters[(sig, is_known)], key=lambda i: (len(cases.items[i]["text"]) + sum(len(v) for v in cases.items[i]["files"].values()), i))
         it = cases.items[ids[0]]
-        kf = [f for f in known if f.get("property") == PID and f.get("signature") == sig]   # exact: file:line, not a prefix
-        is_known = bool(kf)
         text = it["text"]
-        if not is_known and not it.get("path"):
+        if not is_known and not it.get("path") and not it.get("heavy"):
             text = pf.minimise(it, sig, wd, budget_s=25 if tier == "quick" else 90, to_ms=to_ms)
         replay = {"property": PID, "kind": "parse", "signature": sig, "text": text, "files": it["files"] if len(it["files"]) <= 3 else
                   {k: v for k, v in it["files"].items() if k in text}, "desc": bad[ids[0]]["desc"],
                   "generated_by": list(cases.meta[ids[0]]), "count": len(ids)}
         if it.get("path"):
             replay["on_disk"] = True
+        if it.get("heavy"):
+            replay["to_ms"] = HEAVY_MS
         if is_known:
-            res.known.append({"signature": sig, "what": kf[0].get("what", "")})
+            res.known.append({"signature": sig, "what": known_for(ids[0], sig).get("what", "")})
         else:
             path = kv.write_replay(PID, hashlib.md5(sig.encode()).hexdigest()[:8], replay)
             res.violations.append({"desc": bad[ids[0]]["desc"], "replay": path})
@@ -526,10 +638,11 @@ def run(tier, seed):
                 continue
             msgs[m[:60]] += 1
         nontrivial += 1
-    bykind = Counter(k.split(":")[0] if k.startswith(("bytes", "grammar", "as-include", "file", "lexer")) else "structure:" + k
+    bykind = Counter(k.split(":")[0] if k.startswith(("bytes", "grammar", "as-include", "file", "lexer", "refs", "templates", "caps")) else "structure:" + k
                      for k, _ in cases.meta)
     samples = []
-    want = ["sentinel", "splice", "arity", "number-boundary", "name-self-referential", "grammar:action", "bytes:openend", "delete+arity"]
+    want = ["sentinel", "splice", "arity", "number-boundary", "name-self-referential", "grammar:action", "bytes:openend", "delete+arity",
+            "templates:lit", "caps:seq-overlap", "caps:switch-depth"]
     for w in want:
         for i, (k, o) in enumerate(cases.meta):
             if k == w and len(cases.items[i]["text"]) < 400:
@@ -607,7 +720,7 @@ def replay(r, path, wd):
                     f.write(content)
                 disk[name] = content
         it["path"], it["disk"] = main, disk
-    res = pf.run_probe([it], wd, "replay", to_ms=5000, shards=1)[0]
+    res = pf.run_probe([it], wd, "replay", to_ms=int(r.get("to_ms", 5000)), shards=1)[0]
     print("text (%d bytes):\n%s" % (len(it["text"].encode("utf-8")), it["text"][:2000]))
     for k, v in it["files"].items():
         print("file %s (%d bytes)" % (k, len(v.encode("utf-8"))))
